@@ -25,6 +25,9 @@ class Capture:
         self.calls = []
         self.prefix = prefix
         self.enabled = True
+        self.reuse = None   # list[TriCall] of an earlier run: call k returns that run's u (justified by the
+        #                     caller proving the two systems equivalent + uniqueness lemma T1')
+        self.make_u = None  # optional callable(k, n) -> list[Sym] overriding the fresh unknowns
         self._saved = dict(ir.hooks)
         ir.hooks['tridiag_premalloc'] = self._mk('tridiag_premalloc')
         ir.hooks['tridiag'] = self._mk('tridiag')
@@ -49,7 +52,14 @@ class Capture:
             bv = rd(b, 0, n)
             cv = rd(c, 0, n - 1)
             rv = rd(r, 0, n)
-            uv = [S.R('%s%d_%d' % (self.prefix, k, j)) for j in range(n)]
+            if self.make_u is not None:
+                uv = list(self.make_u(k, n))
+            elif self.reuse is not None:
+                if k >= len(self.reuse) or self.reuse[k].n != n:
+                    raise ValueError('second run issues a different sequence of tridiagonal solves (call %d)' % k)
+                uv = list(self.reuse[k].u)
+            else:
+                uv = [S.R('%s%d_%d' % (self.prefix, k, j)) for j in range(n)]
             for j in range(n):
                 mod.store(type(u)(u.reg, u.off + 8 * j), uv[j], 'double')
             self.calls.append(TriCall(k, n, av, bv, cv, rv, uv, fname))
@@ -111,14 +121,15 @@ class SweepRecorder:
                     raise TypeError('%s() got unexpected keyword arguments %s' % (name, sorted(kw)))
             phi = args[0]
             before = np.array(phi, dtype=object, copy=True)
-            n0 = len(self._cap.calls)
+            n0 = len(self._cap.calls) if self._cap is not None else 0
             out = f(*args, **kw)
             after = np.array(out, dtype=object, copy=True)
-            self.sweeps.append(Sweep(name, args, before, after, self._cap.calls[n0:]))
+            self.sweeps.append(Sweep(name, args, before, after, self._cap.calls[n0:] if self._cap is not None else []))
             return out
         g.__name__ = name
         return g
 
     def reset(self):
         self.sweeps = []
-        self._cap.reset()
+        if self._cap is not None:
+            self._cap.reset()
